@@ -162,6 +162,8 @@ func Catalogue(dir string) []Case {
 		raw        bool
 	}
 	big := strings.Repeat("x", 1<<20)
+	line := "temp1: +45.0 C  (crit = +100.0 C)\n"
+	multi := strings.TrimRight((strings.Repeat(line, 4194304/len(line)+1))[:4194304], "\n")
 	specs := []spec{
 		{name: "ok", body: "echo 42", stdout: "42"},
 		{name: "ok-trailing-newlines", body: `printf '42\n\n\n'`, stdout: "42"},
@@ -194,6 +196,11 @@ func Catalogue(dir string) []Case {
 		{name: "output-nonsense-number", body: "echo '12abc'", stdout: "12abc"},
 		{name: "output-1MiB", body: "head -c 1048576 /dev/zero | tr '\\0' x", stdout: big},
 		{name: "stderr-1MiB-exit1", body: "head -c 1048576 /dev/zero | tr '\\0' x >&2\nexit 1"},
+		// many lines of plausible but non-numeric output (what `sensors` prints), 4 MiB
+		{name: "output-4MiB-multiline-non-numeric", body: "yes 'temp1: +45.0 C  (crit = +100.0 C)' | head -c 4194304", stdout: multi},
+		// executable text files without a #! line: the kernel refuses them (ENOEXEC); fan2go does not start a shell for them
+		{name: "no-shebang-script", body: "echo 42\n", raw: true, startFail: true},
+		{name: "no-shebang-script-grandchild-holds-stdout", body: "sleep " + sleepS + " &\necho 42\n", raw: true, startFail: true},
 	}
 	var cases []Case
 	for _, s := range specs {
